@@ -17,7 +17,7 @@ EXPLANATION = (
     "(`addr_of!(ptr) as usize` is the address of the pointer variable, not of the buffer) - the end bound and the current position derive from the pointers' values; the same lint is reported as a note elsewhere; "
     "C16.2 try_accept / try_connect (Unix and TCP) and TcpStreamInProgress::try_connect reach no poll/epoll/sleep/futex wrapper, and every socket()/accept4() in tiny-std's net module carries SOCK_NONBLOCK|SOCK_CLOEXEC; "
     "C16.3 Error::Timeout is constructed only on the `ppoll(..) == Ok(0)` edge; the Duration reaches ppoll as a TimeSpec converted once by the library's own TryFrom<Duration> (whose tv_sec/tv_nsec are as_secs()/subsec_nanos() unmodified, so no part of the limit is dropped), None stays a null timeout, EINTR re-polls (and only EINTR), and after readiness the operation is retried with the same arguments; "
-    "C16.6 every stream read/write entry point forwards its own descriptor, the caller's whole buffer and limit to the matching transfer helper and returns its count; the helpers pass (sock, buf) to read/write unchanged; C16.4 at every raw syscall site in rusl a (pointer, length) pair taken from a slice comes from ONE slice; "
+    "C16.6 every stream read/write entry point forwards its own descriptor, the caller's whole buffer and limit to the matching transfer helper and returns its count; the helpers pass (sock, buf) to read/write unchanged and every Ok they return is that call's count; a receive header offers the control buffer at its full length; C16.4 at every raw syscall site in rusl a (pointer, length) pair taken from a slice comes from ONE slice; "
     "C16.5 sockaddr_in gets the port in network order and the address bytes in memory order; the Unix address conversion rejects a path that has no terminator within 108 bytes and reports len(path incl. NUL) + size_of(sa_family_t). "
     "NOT decided: in-order complete delivery when buffers fill, completion of blocking calls when the peer acts, timing bounds (kernel and scheduling).")
 ASSUMPTIONS = ["struct msghdr / cmsghdr layout of Linux", "ppoll returns 0 exactly on timeout"]
@@ -234,6 +234,45 @@ def run_one(ck, prog):
         ops = [bb for bb, t in hc.cfg.calls(lambda t: (t.get("callee") or "").endswith(sysn))]
         good = bool(ops) and all(canon(strip_casts(hc.args(bb)[0])) == "p1" and canon(strip_casts(hc.args(bb)[1])).replace("*", "").replace("&", "") == "p2" for bb in ops)
         ck.ob("C16.6", f"{hn}|transfers-the-callers-buffer-on-the-callers-socket", good, fn=hf["path"], detail=f"every {sysn.split('::')[-1]} in {hn} must be (sock, buf) exactly as received; sites {len(ops)}")
+
+    # ---- C16.6 (cont.) the transfer helpers answer with the count of the operation they just made: every Ok they return is a
+    # read/write result (a length taken from the buffer instead claims bytes that were never transferred)
+    for hn, sysn in (("blocking_read_nonblock_sock", "unistd::read::read"), ("blocking_write_nonblock_sock", "unistd::write::write")):
+        hf = prog.fns.get("tiny_std::sock::" + hn)
+        if hf is None:
+            continue
+        hc = prog.ctx(hf)
+        ops = {bb for bb, t in hc.cfg.calls(lambda t: (t.get("callee") or "").endswith(sysn))}
+        bad = []
+        for b in hf["blocks"]:
+            if b.get("cleanup") or b["id"] not in hc.cfg.live_blocks():
+                continue
+            for i, st in enumerate(b["stmts"]):
+                if st["k"] == "assign" and st["dst"]["l"] == 0 and not st["dst"].get("p") and st["rv"]["k"] == "agg" and st["rv"].get("variant") == "Ok":
+                    v = hc.prov.operand(st["rv"]["ops"][0], (b["id"], i))
+                    if not (mentions(v, hc.prov, lambda z: z[0] == "call" and z[3] in ops) and not mentions(v, hc.prov, lambda z: z[0] == "call" and (z[1] or "").endswith("::len"))):
+                        bad.append((b["id"], show(v)[:80]))
+            t = b["term"]
+            if t["k"] == "call" and t["dst"]["l"] == 0 and not t["dst"].get("p") and not (t.get("callee") or "").endswith(("from_residual", "Into::into", "From::from")) and b["id"] not in ops:
+                pass
+        ck.ob("C16.6", f"{hn}|ok-is-the-count-of-the-operation", not bad, fn=hf["path"], site=hc.site(bad[0][0]) if bad else None,
+              detail=f"an Ok built from something else than the result of {sysn.split('::')[-1]}: {bad[:2]} - after a readiness wait the retried call may transfer only part of the buffer")
+    # the control buffer offered to the kernel is the caller's buffer at its full length (the kernel decides how many descriptors fit
+    # from msg_controllen: rounding it down drops the last descriptor of an exactly sized buffer)
+    for p_, fn_ in sorted(prog.fns.items()):
+        if not (p_.startswith("rusl::platform::compat::socket::MsgHdr") and p_.endswith(("::create_recv",))):
+            continue
+        mc = prog.ctx(fn_)
+        for b in fn_["blocks"]:
+            for i, st in enumerate(b["stmts"]):
+                if st["k"] == "assign" and st["rv"]["k"] == "agg" and "msg_controllen" in (st["rv"].get("fields") or []):
+                    d_ = dict(zip(st["rv"]["fields"], [mc.prov.operand(o, (b["id"], i)) for o in st["rv"]["ops"]]))
+                    cl = d_["msg_controllen"]
+                    vals = list(mc.prov.expand(strip_casts(cl))) if isinstance(strip_casts(cl), tuple) and strip_casts(cl)[0] == "var" else [cl]
+                    ok_ = all(fold(v) == 0 or (isinstance(strip_casts(v), tuple) and strip_casts(v)[0] == "call" and (strip_casts(v)[1] or "").endswith("::len")) or
+                              (isinstance(strip_casts(v), tuple) and strip_casts(v)[0] == "field" and not mentions(v, mc.prov, lambda z: z[0] == "bin")) for v in vals)
+                    ck.ob("C16.1", f"{p_.split('socket::')[-1]}|control-length-is-the-buffers-length", ok_, fn=p_, site=mc.site(b["id"]),
+                          detail=f"msg_controllen must be the control buffer's len() (or 0 without a buffer), found {[show(v)[:60] for v in vals]}")
 
     # ---- C16.3 the Duration -> TimeSpec conversion keeps the whole limit (seconds and the full sub-second part) --------------------------
     cv = [fn for p, fn in prog.fns.items() if p.endswith("TimeSpec as core::convert::TryFrom<core::time::Duration>>::try_from")]
